@@ -361,9 +361,8 @@ def rule_python_side(r):
     pw = dm.func("_pop_par_weights")
     r.check(pf.contains_text(pw, "pd = ([value if relative else 0.0], [1.0])"), "sasmodels/direct_model.py", "_pop_par_weights",
             "inactive angular distribution = [0.0]", pw.lineno)
-    w = pf.lib("weights").func("Dispersion.get_weights")
-    r.check(pf.contains_text(w, "if not relative:\n    center = 0"), "sasmodels/weights.py", "Dispersion.get_weights",
-            "absolute distributions centred on zero", w.lineno)
+    from .c02 import rule_centre
+    rule_centre(r)
 
 
 RULES = [
@@ -373,7 +372,7 @@ RULES = [
     ("R-C05-cos", 18, "|cos(dtheta)| projection weight", make_c_rule("R-C05-cos")),
     ("R-C05-radial", 55, "q reaches the model as |q| or through the rotation only", make_c_rule("R-C05-radial")),
     ("R-C05-1d", 70, "no orientation member in 1-D / unoriented calls", make_c_rule("R-C05-1d")),
-    ("R-C05-python", 13, "angle adjacency, offsets, 1-D exclusion, projection constant", rule_python_side),
+    ("R-C05-python", 18, "angle adjacency, offsets, 1-D exclusion, projection constant", rule_python_side),
 ]
 
 
